@@ -272,6 +272,8 @@ func CheckC02(e *Env) int {
 	// a parameter named like a later local of an assignable type
 	progs = append(progs, paramLocalCollisionFamily()...)
 	// nothing to construct: the designated argument comes back, not another assignable one
+	progs = append(progs, diamondCompositeFamily()...)
+	progs = append(progs, caseTwinFieldsFamily()...)
 	progs = append(progs, localShadowsSetVarFamily()...)
 	progs = append(progs, passThroughArgsFamily()...)
 	// same-named packages with same-named members
@@ -319,6 +321,7 @@ func CheckC03(e *Env) int {
 	progs = append(progs, cleanupChains(e)...)
 	progs = append(progs, sameNameCleanupFamily()...)
 	progs = append(progs, namedResultsFamily()...)
+	progs = append(progs, diamondCompositeFamily()...)
 	progs = append(progs, errNameProgs(e)...)
 	progs = append(progs, cleanupSignatureProduct(e)...)
 	// the zero value returned on failure, for every kind of result type, declared in the
@@ -345,6 +348,7 @@ func CheckC04(e *Env) int {
 	progs = append(progs, cleanupChains(e)...)
 	progs = append(progs, sameNameCleanupFamily()...)
 	progs = append(progs, namedResultsFamily()...)
+	progs = append(progs, diamondCompositeFamily()...)
 	progs = append(progs, cleanupSignatureProduct(e)...)
 	results := RunPool(e, progs, PoolOpts{Execute: true, Name: "c04"})
 	for _, pr := range results {
